@@ -226,11 +226,19 @@ def r2(ctx):
     pcfg = ctx.cfg(run)
     fam = [n for n in walk_function(run.node) if isinstance(n, ast.For) and "families" in u(n.iter)]
     ctx.require(len(fam) == 1, "family loop of run_whatshap not found")
+    def _is_zip(e):
+        return u(util.expand_single_defs(run.node, e)) in ("zip(family, superreads_list)", "list(zip(family, superreads_list))", "tuple(zip(family, superreads_list))")
+
+    # superreads[member] = ... in a loop over zip(family, <the solver's read sets>), or the whole zip handed to update()
     keyed = {pcfg.node_of(s_.stmt) for s_ in util.store_sites(fam[0]) if s_.kind == "subscript" and u(s_.target.value) == "superreads"}
     zipl = set()
     for n_ in walk_function(fam[0]):
-        if isinstance(n_, ast.For) and u(n_.iter) == "zip(family, superreads_list)":
+        if isinstance(n_, ast.For) and _is_zip(n_.iter) and any(pcfg.node_of(s_.stmt) in keyed for s_ in util.store_sites(n_) if s_.kind == "subscript" and u(s_.target.value) == "superreads"):
             zipl.add(pcfg.node_of(n_))
+    for c_ in ctx.prog.calls_in(fam[0]):
+        if u(c_.func) == "superreads.update" and len(c_.args) == 1 and not c_.keywords and _is_zip(c_.args[0]):
+            zipl.add(pcfg.node_containing(c_))
+            keyed.add(pcfg.node_containing(c_))
     probs = util.check_loop_conservation(pcfg, fam[0], lambda n: n in zipl) if zipl and keyed else [("skip", [])]
     ctx.ob(run.qual, "every-family-member-becomes-a-writer-target", not probs, run.loc(fam[0]), "every processed family stores superreads[sample] for all its members, so the writer removes their old phase on this chromosome" if not probs else "a family can be skipped before superreads[sample] is stored: its members keep all pre-existing phase information on this chromosome", pcfg.describe_path(probs[0][1]) if probs and probs[0][1] else None)
     rm = ctx.func(W + "._remove_existing_phasing")
